@@ -10,19 +10,23 @@ MANIFEST = dict(
     text=("Lean 4 theorems over an executable model of iwfsmfile.c (bitmap, free-extent index ordered by (length, offset), "
           "last-free-block cache, best-fit / page-aligned allocation, release with neighbour merge, bitmap growth and relocation): "
           "a returned region consists of blocks that were free and are disjoint from every live region, the header and the bitmap; "
-          "alignment and length laws; guarded releases leave the state unchanged. The model is tied to the code by a differential run "
+          "alignment and length laws; guarded releases leave the state unchanged; reallocate over the bytes of the pool (block model + the copy of the "
+          "exfile model of C12) returns a region whose first min(old, new) bytes are the bytes that stood at the old address, for every state and "
+          "request (same size, shrunk in place, moved with any number of bitmap doublings), given that the allocator's own stores leave caller-held "
+          "blocks alone (shown for stores into the bitmap area). The model is tied to the code by a differential run "
           "of the real IWFS_FSM against the compiled Lean model on generated histories (addresses, lengths, complete index, bitmap runs, "
           "cache, file size, statistics compared after every step); an independent oracle checks the property on the implementation's results"),
     note=("trusted: Lean kernel, translator, harness/generator, gcc+ASan/UBSan; modelled not verified: the C control flow of the functions named; "
           "the over-allocation heuristic computes in double: the theorems hold for every outcome of it, the driver mirrors it with Float; "
           "page size 4096; offsets and lengths below 2^32 blocks; non-strict mode: releases of free blocks are accepted by the code (open finding FSM6), "
-          "the theorems assume releases name allocated ranges there; byte preservation of reallocate is tied (pattern bytes), not a theorem; "
+          "the theorems assume releases name allocated ranges there; byte preservation of reallocate: the allocator's own stores during the call are a parameter of the theorem constrained to blocks no caller holds "
+          "(tied by the pattern bytes of all live regions and by the recorded pool.copy arguments compared with the model's), the pool has shared windows; "
           "tree modelled = /repo + fix commits 92a58a8 c298771 178a684 2507f48 9fd915e dd41311 (+474d361 of exf12)"),
     technique="Lean 4 proof over executable model + differential correspondence (C harness vs compiled Lean driver) + shadow-interval oracle")
 MODULE = "IwModel.Props.C10"
 THEOREMS = ["IwModel.C10." + n for n in (
     "alloc_fresh", "alloc_aligned", "alloc_len", "alloc_solid", "dealloc_guard", "guarded_of_overlap",
-    "dealloc_strict_refuses", "dealloc_exact", "realloc_inv", "realloc_fresh")]
+    "dealloc_strict_refuses", "dealloc_exact", "realloc_inv", "realloc_fresh", "realloc_keeps_bytes", "realloc_hypotheses_met")]
 
 
 def gen_invalid(r, cfg):
